@@ -12,7 +12,7 @@ RULE = ("exhaustive ordered operand pairs (string x phase) for N<=3, random host
         "distinct = distinct (sub-check, operands) digests")
 ASSUMPTIONS = ["oracle: 2x2 literal Pauli matrices + Kronecker products; independent 4x4 one-qubit table",
                "phases compared mod 4; dtypes not judged"]
-REQUIRED_SUBS = ["matmul.table", "matmul.dense", "acq", "ipow", "chain.drift", "assoc", "square", "batch_dot",
+REQUIRED_SUBS = ["matmul.pure", "chain.operand", "matmul.table", "matmul.dense", "acq", "ipow", "chain.drift", "assoc", "square", "batch_dot",
                  "combine.chain", "acq_mat"]
 
 
@@ -149,6 +149,24 @@ def run_rand(shard, rec, B):
             eg, ep = O.mul(*O.mul(gs[0], ps[0], gs[1], ps[1]), gs[2], ps[2])
             rec.check("assoc", np.array_equal(ga, gb) and pa == pb and np.array_equal(ga, eg) and pa == int(ep),
                       case, all(g.any() for g in gs), expected=O.show(eg, ep), observed=[O.show(ga, pa), O.show(gb, pb)])
+    # operands that are themselves results of earlier products are re-observed after being used (no operand may change)
+    for t in range(max(100, n // 20)):
+        N = Ns[t % len(Ns)]
+        g1, g2, g3 = gen.rand_string(rng, N), gen.rand_string(rng, N), gen.rand_string(rng, N)
+        p1, p2, p3 = (int(x) for x in rng.integers(0, 4, 3))
+        I = B.Pauli(np.zeros(2 * N, dtype=np.int64), 0)
+        case = [O.show(g1, p1), O.show(g2, p2), O.show(g3, p3)]
+        ok, R = rec.attempt("matmul.pure", case, lambda: (I @ B.Pauli(g1, p1), B.Pauli(g2, p2) @ I))
+        if ok:
+            A, Bq = R
+            ok, R2 = rec.attempt("matmul.pure", case, lambda: (A @ Bq, A @ B.Pauli(g3, p3), Bq @ A, (-A) @ Bq))
+            if ok:
+                (ga, pa), (gb, pb) = B.gp(A), B.gp(Bq)
+                eg, ep = O.mul(g1, p1, g2, p2)
+                rg, rp = B.gp(R2[0])
+                rec.check("matmul.pure", np.array_equal(ga, g1) and pa == p1 and np.array_equal(gb, g2) and pb == p2
+                          and np.array_equal(rg, eg) and rp == int(ep), case, nontrivial(g1, p1, g2, p2),
+                          expected=case[:2], observed=[O.show(ga, pa), O.show(gb, pb)])
     # chains: running product, checked at every step (phase drift)
     for c in range(4):
         N = [3, 7, 33, 12][c]
@@ -161,6 +179,10 @@ def run_rand(shard, rec, B):
             ok, acc2 = rec.attempt("chain", [N, k], lambda: acc @ B.Pauli(g, p))
             if not ok:
                 break
+            if k % 7 == 0:  # the previous partial product is still what it was
+                qg, qp = B.gp(acc)
+                rec.check("chain.operand", np.array_equal(qg, og) and qp == int(op) % 4, ["chain-operand", N, c, k], True,
+                          expected=O.show(og, op), observed=O.show(qg, qp))
             acc = acc2
             og, op = O.mul(og, op, g, p)
             lg, lp = B.gp(acc)
